@@ -7,6 +7,7 @@ require (
 	github.com/aws/aws-sdk-go-v2 v1.43.5
 	github.com/aws/smithy-go v1.27.7
 	github.com/jdillenkofer/pithos v0.0.0
+	github.com/klauspost/reedsolomon v1.14.2
 	github.com/prometheus/client_golang v1.24.1
 	pgregory.net/rapid v1.3.0
 )
@@ -51,7 +52,6 @@ require (
 	github.com/jmespath/go-jmespath v0.4.0 // indirect
 	github.com/klauspost/compress v1.19.2 // indirect
 	github.com/klauspost/cpuid/v2 v2.3.0 // indirect
-	github.com/klauspost/reedsolomon v1.14.2 // indirect
 	github.com/mattn/go-sqlite3 v1.14.49 // indirect
 	github.com/mitchellh/mapstructure v1.5.0 // indirect
 	github.com/munnerz/goautoneg v0.0.0-20191010083416-a7dc8b61c822 // indirect
